@@ -29,6 +29,43 @@ def emit(repo, spec, H):
         term = H.P(e, params, env).ternary_all()
         out.append("(* %s: %s: %s *)" % (f, fn, cexpr.replace("*)", "* )").replace("(*", "( *")))
         out.append("Definition %s %s : Z := %s." % (name, " ".join("(%s : Z)" % p for p in params), term))
+    # do { ...; } while (cond);  loops whose body is a straight-line sequence of updates of the listed variables:
+    # the updates are emitted in SOURCE ORDER as nested lets, so a reordering changes the generated function.
+    for f, fn, nth, name, vars_, init_anchor in spec.get("seq_loops", []):
+        body = H.func_body(H.src(repo, f), fn)
+        env = {}
+        env.update(H.all_enums(H.src(repo, f)))
+        env.update(H.defines(repo, f))
+        loops = list(re.finditer(r"\bdo\s*\{((?:[^{}]|\{[^{}]*\})*)\}\s*while\s*\(([^;]*)\)\s*;", body))
+        if len(loops) <= nth:
+            raise ValueError("%s:%s: do-while #%d not found (%d present)" % (f, fn, nth, len(loops)))
+        lb, cond = loops[nth].group(1), " ".join(loops[nth].group(2).split())
+        flat = re.sub(r"\{[^{}]*\}", " ", lb)          # drop nested blocks (the error exits)
+        ups = []
+        for st in flat.split(";"):
+            st = " ".join(st.split())
+            m = re.fullmatch(r"(?:if\s*\(.*\)\s*)?([A-Za-z_][A-Za-z0-9_]*)\s*(-=|\+=|=)\s*(.+)", st)
+            if not m or m.group(1) not in vars_:
+                continue
+            rhs = m.group(3)
+            if m.group(2) != "=":
+                rhs = "%s %s (%s)" % (m.group(1), m.group(2)[0], rhs)
+            ups.append((m.group(1), rhs, st))
+        if not ups:
+            raise ValueError("%s:%s: do-while #%d has no updates of %s" % (f, fn, nth, vars_))
+        out.append("(* %s: %s: do-while #%d, updates in source order: %s ; while (%s) *)" % (
+            f, fn, nth, " ; ".join(u[2] for u in ups).replace("(*", "( *").replace("*)", "* )"), cond))
+        lets = "".join("let %s := %s in " % (v, H.P(rhs, vars_, env).ternary_all()) for v, rhs, _ in ups)
+        out.append("Definition %s_step %s : %s := %s(%s)." % (
+            name, " ".join("(%s : Z)" % v for v in vars_), " * ".join("Z" for _ in vars_), lets, ", ".join(vars_)))
+        out.append("Definition %s_more %s : Z := %s." % (
+            name, " ".join("(%s : Z)" % v for v in vars_), H.P(cond, vars_, env).ternary_all()))
+        inits = list(re.finditer(init_anchor, body))
+        if len(inits) <= nth:
+            raise ValueError("%s:%s: initial value anchor matched %d times, need > %d" % (f, fn, len(inits), nth))
+        ie = " ".join(inits[nth].group(1).split())
+        out.append("(* %s: %s: initial %s before do-while #%d: %s *)" % (f, fn, vars_[-1], nth, ie.replace("(*", "( *").replace("*)", "* )")))
+        out.append("Definition %s_init %s : Z := %s." % (name, "(%s : Z)" % vars_[0], H.P(ie, [vars_[0]], env).ternary_all()))
     for f, macro, width in spec.get("float_bits", []):
         d = H.defines(repo, f)
         if macro not in d:
